@@ -93,7 +93,12 @@ fn datasets(rng: &mut Rng, len: usize) -> Vec<(&'static str, Vec<f64>, Vec<f64>)
     // (iii) general floats
     let a3: Vec<f64> = (0..len).map(|_| rng.sym() * rng.logpos(1e-3, 1e3)).collect();
     let b3: Vec<f64> = (0..len).map(|_| rng.sym()).collect();
-    vec![("distinct-integer-products", a1, b1), ("signed-integers", a2, b2), ("general-floats", a3, b3)]
+    // (iv) exact data of extreme dynamic range: a_i = 2^e_i, b_i = s_i * 2^-e_i with e_i in [-600, 600] and small integers s_i:
+    //      every product is the integer s_i, every partial sum is exact, whatever the partition
+    let es: Vec<i32> = (0..len).map(|_| rng.int(-600, 600) as i32).collect();
+    let a4: Vec<f64> = es.iter().map(|e| 2f64.powi(*e)).collect();
+    let b4: Vec<f64> = es.iter().map(|e| rng.int(-9, 9) as f64 * 2f64.powi(-*e)).collect();
+    vec![("distinct-integer-products", a1, b1), ("signed-integers", a2, b2), ("general-floats", a3, b3), ("wide-range-exact", a4, b4)]
 }
 
 fn one_config(st: &mut Stats, rng: &mut Rng, k: usize, len: usize, delays: bool, only: Option<usize>) {
@@ -116,7 +121,10 @@ fn one_config(st: &mut Stats, rng: &mut Rng, k: usize, len: usize, delays: bool,
                 Err(e) => { if obs.begin.is_none() { st.count("hook:silent"); } else { st.violation("C16:dot_f64:partition", format!("{}; {}", e, desc())); } }
             }
             // value oracles
-            if name != "general-floats" {
+            if name == "wide-range-exact" {
+                let ex: f64 = a.iter().zip(&b).map(|(x, y)| x * y).sum(); // integers below 2^53: exact in any order
+                if v.to_bits() != seq.to_bits() || v != ex { st.violation("C16:dot_f64:wrong-value-exact-data", format!("dot_f64 = {:e}, dot = {:e}, exact = {:e} (products are small integers, factors 2^+-600); {}", v, seq, ex, desc())); }
+            } else if name != "general-floats" {
                 let ex = exact_int_dot(&a, &b);
                 if v.to_bits() != seq.to_bits() || v != ex as f64 || (ex as f64) as i128 != ex {
                     st.violation("C16:dot_f64:wrong-value-exact-data", format!("dot_f64 = {:e}, dot = {:e}, exact integer = {}; {}", v, seq, ex, desc()));
@@ -187,6 +195,58 @@ fn concurrent_callers(ctx: &Ctx, cpus: &[usize]) -> Stats {
     st
 }
 
+/// More callers than CPUs: 3k caller threads share one window of k CPUs (so every call uses k workers) and call dot_f64
+/// on GENERAL floating-point data. The partition, hence the rounding, may depend on k only: every result must be
+/// bit-identical to what a single caller obtained under the same affinity before the crowd started.
+fn oversubscribed_callers(ctx: &Ctx, cpus: &[usize]) -> Stats {
+    let mut out = Stats::default();
+    out.unit = 2_000_000;
+    let k = cpus.len().min(4);
+    if k < 2 { out.count("skipped:oversubscribed-callers-need-2-cpus"); return out; }
+    let window: Vec<usize> = cpus[..k].to_vec();
+    let mut rng = Rng::new(crate::rng::mix(ctx.seed, 0xC16_0E));
+    let lens = [200usize, 199, 163, 1000, 4099, rng.usize(150, 199), rng.usize(201, 3000)];
+    let sets: Vec<(Vector<f64>, Vector<f64>)> = lens.iter().map(|&len| (Vector::create((0..len).map(|_| rng.sym() * rng.logpos(1e-3, 1e3)).collect()), Vector::create((0..len).map(|_| rng.sym()).collect()))).collect();
+    // single-caller reference under the same affinity
+    let w2 = window.clone();
+    let sets_ref = &sets;
+    let refs: Option<Vec<u64>> = std::thread::scope(|s| s.spawn(move || { if !pin_to(&w2) { return None; } Some(sets_ref.iter().map(|(a, b)| a.dot_f64(b).to_bits()).collect()) }).join().ok().flatten());
+    let refs = match refs { Some(r) => r, None => { out.count("skipped:affinity-not-effective"); return out; } };
+    let nthreads = 3 * k;
+    let calls = ctx.vol(150, 4000);
+    let total = std::sync::Mutex::new(out);
+    std::thread::scope(|s| {
+        for t in 0..nthreads {
+            let (total, window, refs) = (&total, &window, &refs);
+            s.spawn(move || {
+                let mut st = Stats::default();
+                st.unit = 2_000_000 + t as u64;
+                if !pin_to(window) { st.count("skipped:affinity-not-effective"); total.lock().unwrap().merge(st); return; }
+                for c in 0..calls {
+                    let i = ((c + t as u64) % sets_ref.len() as u64) as usize;
+                    let (a, b) = &sets_ref[i];
+                    st.case = c;
+                    st.eval();
+                    match catch(|| a.dot_f64(b)) {
+                        Outcome::Ok(v) => if v.to_bits() != refs[i] {
+                            st.violation("C16:dot_f64:oversubscribed-callers:load-dependent", format!("caller {} of {} sharing CPUs {:?}, call {}, len {}: dot_f64 = {:?} ({:x}), a single caller under the same affinity got {:?} ({:x})", t, nthreads, window, c, a.size(), v, v.to_bits(), f64::from_bits(refs[i]), refs[i]));
+                            if st.nviol > 5 { break; }
+                        },
+                        o => { st.violation("C16:dot_f64:oversubscribed-callers:panic", o.describe()); break; }
+                    }
+                }
+                st.add("oversubscribed-callers:calls", st.evals);
+                st.nontrivial(hmix(hash_str("oversubscribed-callers"), t as u64));
+                total.lock().unwrap().merge(st);
+            });
+        }
+    });
+    let mut st = total.into_inner().unwrap();
+    st.add("oversubscribed-callers:threads", nthreads as u64);
+    st.add("oversubscribed-callers:cpus", k as u64);
+    st
+}
+
 pub fn run(ctx: &Ctx) -> Report {
     let cpus = allowed_cpus();
     let kmax = cpus.len().min(16);
@@ -223,16 +283,16 @@ pub fn run(ctx: &Ctx) -> Report {
         // quick: every (k, len) with one data set (rotating) and delays on alternate lengths (thread creation costs
         // ~10 ms per 16-worker call in this VM); thorough: all three data sets in both delay modes
         for len in lens {
-            if ctx.quick() && u < exhaustive_units { if delays { continue; } one_config(st, rng, k, len, (len + k) % 2 == 1, Some((len + k) % 3)); }
+            if ctx.quick() && u < exhaustive_units { if delays { continue; } one_config(st, rng, k, len, (len + k) % 2 == 1, Some((len + k) % 4)); }
             else { one_config(st, rng, k, len, delays, None); }
         }
     });
     stop.store(true, Ordering::Relaxed);
     for s in spinners { let _ = s.join(); }
     let mut stats = stats;
-    if ctx.only_unit.is_none() || ctx.only_unit.map_or(false, |u| u >= 1_000_000) { stats.merge(concurrent_callers(ctx, &cpus)); }
+    if ctx.only_unit.is_none() || ctx.only_unit.map_or(false, |u| u >= 1_000_000) { stats.merge(concurrent_callers(ctx, &cpus)); stats.merge(oversubscribed_callers(ctx, &cpus)); }
     let mut rep = Report::new(stats,
-        "for every worker count k=1..K (K = CPUs in the initial affinity mask, 16 here; the monitor thread pins itself to k CPUs and confirms num_cpus::get()==k) and every length 0..200 (exhaustive) plus random longer lengths (multiples of k, multiples plus remainder, up to 4e4 quick / 2e5 thorough): three data sets (distinct integer products with exact partial sums, signed integers, general floats; quick tier: one data set per (k,len), rotating), each call made twice, half of the configurations with pseudo-random per-worker delays injected through hook H3, two duty-cycled background spinner threads throughout. Judged: bit-equality with dot() and the exact i128 dot product on exact data, |diff|<=2*len*u*sum|ab| on general data, bit-identical repeats; hook events: chunks tile [0,len) exactly once in order, chunk count == worker count (its relation to the CPU count is recorded, not judged), completion tickets form a permutation (distinct completion orders are reported per worker count). Plus a concurrent-callers phase: 8 user threads pinned to disjoint CPU pairs call dot_f64 on their own exact data simultaneously (30k calls each quick, 400k thorough), every result bit-equal to the exact integer dot product. Non-trivial: every (k,len,data,delay) configuration; distinct = that tuple");
+        "for every worker count k=1..K (K = CPUs in the initial affinity mask, 16 here; the monitor thread pins itself to k CPUs and confirms num_cpus::get()==k) and every length 0..200 (exhaustive) plus random longer lengths (multiples of k, multiples plus remainder, up to 4e4 quick / 2e5 thorough): four data sets (distinct integer products with exact partial sums, signed integers, general floats, exact data of extreme dynamic range a_i=2^e_i, b_i=s_i*2^-e_i with |e_i|<=600; quick tier: one data set per (k,len), rotating), each call made twice, half of the configurations with pseudo-random per-worker delays injected through hook H3, two duty-cycled background spinner threads throughout. Judged: bit-equality with dot() and the exact i128 dot product on exact data, |diff|<=2*len*u*sum|ab| on general data, bit-identical repeats; hook events: chunks tile [0,len) exactly once in order, chunk count == worker count (its relation to the CPU count is recorded, not judged), completion tickets form a permutation (distinct completion orders are reported per worker count). Plus a concurrent-callers phase: 8 user threads pinned to disjoint CPU pairs call dot_f64 on their own exact data simultaneously (30k calls each quick, 400k thorough), every result bit-equal to the exact integer dot product. Plus an oversubscribed phase: 3k caller threads share one window of k=4 CPUs and call dot_f64 on general floating-point data (150 calls each quick, 4000 thorough); every result must be bit-identical to the value a single caller obtained under the same affinity. Non-trivial: every (k,len,data,delay) configuration; distinct = that tuple");
     rep.assumptions = vec!["worker count is set through sched_setaffinity on the calling thread (what num_cpus::get() reads)".into(), "Miri/TSan stages are run by the check wrapper (see sanitizer_stages in the evidence)".into()];
     rep.min_nontrivial = if ctx.quick() { 2000 } else { 15_000 };
     let mut ex = J::obj();
